@@ -1,6 +1,6 @@
 """C18 - DataSet transformations preserve the labelled samples.
 
-ALL operation sequences up to depth 4 (thorough: additionally depth 5 over the 14 state-changing core operations) over a 33-operation alphabet (incl. operations on derived objects: copies and split pieces) on real DataSet objects (initial sets: empty,
+ALL operation sequences up to depth 4 (thorough: additionally depth 5 over the 14 state-changing core operations) over a 35-operation alphabet (incl. operations on derived objects: copies and split pieces) on real DataSet objects (initial sets: empty,
 single sample, two samples, ties in min/max with an unlabelled sample, one-dimensional, integer dtype), compared after every step
 with a reference model: the multiset of (sample,label) pairs, the affine bookkeeping since the last overriding
 rescale, and field-by-field propagation of the scaling attributes.  `shuffle` is put under the explorer's control
@@ -41,7 +41,7 @@ INITS = {
 }
 OPS = ["sr01", "sr-12", "sr01_override", "sf2", "sf_neg", "sf_vec", "sf_vec_neg", "shift.5", "shift_vec", "shift0", "sf_int1", "revert", "shuffle_rev", "shuffle_rot", "mbf",
        "split_labels_cat", "split_pieces.5_cat", "split_pieces0_cat", "split_pieces1_cat", "split_nolabel_cat",
-       "rm0", "rm_dup", "rm_oor", "rm_neg", "cat_diff_scaled",
+       "rm0", "rm_dup", "rm_oor", "rm_neg", "cat_diff_scaled", "sf_badlen", "shift_badlen",
        # an operation applied to an object DERIVED from the data set (copy / a split_labels piece) must leave the data set itself alone
        "derived_copy_sf2", "derived_copy_sfvec", "derived_copy_revert", "derived_copy_sr", "derived_split_sf2", "derived_split_sfvec",
        "derived_split_revert", "derived_split_sr"]
@@ -127,6 +127,21 @@ def _apply(ds, op, model):
             issues.append(("affine_map", "%s: samples %r expected %r" % (op, got, want)))
         if sorted(l for _, l in _ms(ds)) != sorted(l for _, l in before):
             issues.append(("labels_changed", op))
+    elif op in ("sf_badlen", "shift_badlen"):
+        # a per-dimension factor / shift of the wrong length on an already scaled set is refused by the library (ValueError); the caller
+        # catches it and goes on: the refused request must not have changed the samples or the scaling attributes (checked here), and
+        # a later revert must still restore the original samples (checked by the model, which this request leaves untouched)
+        if n == 0 or not ds.is_scaled():
+            raise Refusal()      # on an unscaled set the first-scaling branch has no length check: undefined territory
+        # factor: length 1 where dim >= 2 (broadcast-compatible with everything, so only the library's own check refuses it), else too long
+        vec = (np.array([2.0]) if dim > 1 else np.array([2.0, 0.5])) if op == "sf_badlen" else np.array([0.25, -1.0, 0.5][:dim + 1])
+        try:
+            (ds.scale_factor if op == "sf_badlen" else ds.shift_value)(vec)
+            issues.append(("wrong_length_refused", "%s(%r) on a %d-dimensional scaled set accepted" % (op, vec.tolist(), dim)))
+        except ValueError:
+            if _ms(ds) != before or _attrs(ds) != battr:
+                issues.append(("refused_request_leaves_data", "%s(%r) was refused but changed the data set: samples %r -> %r, attributes %r -> %r"
+                               % (op, vec.tolist(), before, _ms(ds), battr, _attrs(ds))))
     elif op == "revert":
         if not ds.is_scaled():
             raise Refusal()
@@ -328,9 +343,9 @@ def run_case(case):
             "evals": counter[0] + 1}
 
 
-# the state-changing core of the alphabet, explored one level deeper in the thorough tier (33^5 sequences per initial set are out of reach)
+# the state-changing core of the alphabet, explored one level deeper in the thorough tier (35^5 sequences per initial set are out of reach)
 CORE = ["sr01", "sr-12", "sr01_override", "sf2", "sf_vec_neg", "shift.5", "revert", "shuffle_rot", "mbf", "split_labels_cat",
-        "split_pieces.5_cat", "rm0", "derived_copy_sf2", "derived_split_revert"]
+        "split_pieces.5_cat", "rm0", "derived_copy_sf2", "derived_split_revert", "sf_badlen"]
 
 
 def cases(tier):
@@ -361,7 +376,7 @@ def main(ctx):
     ctx.add_sample({"init": "two", "sequence": ["sr01", "cat_diff_scaled"]})
     ctx.bounds = {"depth": 4, "depth_core_alphabet": None if ctx.tier == "quick" else 5, "core_alphabet": CORE, "alphabet": OPS, "initial_sets": sorted(INITS), "sequences_executed": total}
     return ctx.finish(
-        rule="every operation sequence up to the stated depth over the 33-operation alphabet on 7 initial data sets (one case = all "
+        rule="every operation sequence up to the stated depth over the 35-operation alphabet on 7 initial data sets (one case = all "
              "completions of a prefix; evaluations = executed operations), lock-step with the reference model after every step",
         assumptions=["revert-restores-original is only demanded while no sample was removed since the first scaling (the statement lists "
                      "scalings, shifts and factors 'in between')", "an exception on an EMPTY set counts as refusal of a degenerate input",
